@@ -10,6 +10,7 @@ from typing import Any, Dict, List, Optional, Tuple
 
 import enc440
 import graphenc
+import common
 from common import Ctx, hx, run_model, unhx
 
 FUEL = 600
@@ -36,7 +37,7 @@ def make_source_repo_class(Repo):
     import req_compile.repos.source as S
 
     class MemSourceRepo(Repo, S.SourceRepository):
-        def __init__(self, universe, allow_prerelease):
+        def __init__(self, universe, allow_prerelease, *args, **kwargs):
             import req_compile.repos.repository as R0
             R0.Repository.__init__(self, "source", allow_prerelease=allow_prerelease)   # not SourceRepository.__init__: no tree to walk
             self.u = universe
@@ -54,7 +55,7 @@ def make_repo_class(R, C, E, U):
             self.u = universe
             self.log: List[str] = []
 
-        def get_candidates(self, req):
+        def get_candidates(self, req=None, *args, **kwargs):
             if req is None:
                 return []
             key = U.normalize_project_name(req.project_name)
@@ -74,7 +75,7 @@ def make_repo_class(R, C, E, U):
                 out.append(c)
             return out
 
-        def resolve_candidate(self, candidate):
+        def resolve_candidate(self, candidate, *args, **kwargs):
             cname, ver, reqs, readable = candidate._mem
             if not readable:
                 raise E.MetadataError(cname, U.parse_version(ver), ValueError("unreadable"))
@@ -85,7 +86,7 @@ def make_repo_class(R, C, E, U):
             d.origin = self
             return d, True
 
-        def close(self):
+        def close(self, *args, **kwargs):
             pass
 
     return MemRepo
@@ -409,10 +410,12 @@ def run_impl(case: Dict[str, Any], M, keep: bool = False, clear_caches: bool = T
     inval = [0]
     orig_remove = D.DistributionCollection.remove_dists
 
-    def counting_remove(self, node, remove_upstream=True):
+    def counting_remove(self, *args, **kwargs):     # forwards the call as the code spelled it
+        node = common.arg_of(orig_remove, (self,) + args, kwargs, "node", pos=1)
+        remove_upstream = common.arg_of(orig_remove, (self,) + args, kwargs, "remove_upstream", pos=2, default=True)
         if not remove_upstream and not isinstance(node, (list, set, tuple)):
             inval[0] += 1
-        return orig_remove(self, node, remove_upstream=remove_upstream)
+        return orig_remove(self, *args, **kwargs)
 
     D.DistributionCollection.remove_dists = counting_remove
     try:
@@ -454,8 +457,13 @@ def run_impl(case: Dict[str, Any], M, keep: bool = False, clear_caches: bool = T
     except RecursionError:
         out = {"kind": "DIVERGED"}
     except BaseException as ex:  # noqa: BLE001
-        if isinstance(ex, (KeyboardInterrupt, SystemExit)):
+        if isinstance(ex, (KeyboardInterrupt, SystemExit, common.HarnessFault)):
+            D.DistributionCollection.remove_dists = orig_remove
             raise
+        try:
+            common.reraise_harness_fault(ex)     # an error of MemRepo / counting_remove is not an internal error of the code
+        finally:
+            D.DistributionCollection.remove_dists = orig_remove
         out = {"kind": "FATAL", "class": type(ex).__name__, "msg": str(ex)[:200]}
     D.DistributionCollection.remove_dists = orig_remove
     out["log"] = list(getattr(repo, "log", []))
